@@ -1,1 +1,209 @@
-//! C17: WHATWG event-stream parser (reference model; to be written)
+//! C17: independent WHATWG event-stream parser (HTML Living Standard, section 9.2.6 "Interpreting an
+//! event stream") plus a tolerant reader for a *prefix* of a chunked body.
+//!
+//! Boring on purpose: split into lines, look for the first colon, four `if`s.  What the algorithm
+//! ignores (comments, unknown field names, `retry` with non-digits, `id` with NUL) is nevertheless
+//! *recorded*, so that an oracle can see text that leaked out of a `data:` line.
+//!
+//! The algorithm, as the standard words it:
+//!   * the stream is UTF-8; one leading U+FEFF is dropped;
+//!   * a line ends with CRLF, a lone LF, a lone CR, or the end of the file;
+//!   * empty line                  -> dispatch the event;
+//!   * line starting with ':'      -> ignore (comment);
+//!   * line containing ':'         -> field = text before the first ':', value = text after it with
+//!                                    ONE leading U+0020 removed;
+//!   * any other line              -> field = whole line, value = "";
+//!   * field "event" -> event-type buffer := value;  "data" -> data buffer += value + LF;
+//!     "id" -> last-event-ID buffer := value unless it contains NUL;  "retry" -> reconnection time
+//!     if all ASCII digits;  anything else ignored;
+//!   * dispatch: if the data buffer is EMPTY, reset data/event-type buffers and return (no event);
+//!     otherwise strip ONE trailing LF from the data buffer and fire an event of the buffered type
+//!     (default "message");
+//!   * end of file: pending (undispatched) data is discarded.
+//!
+//! Consequences worth spelling out (they decide the "empty message" and "trailing newline" cases):
+//!   `data: \n\n`            -> data buffer "\n", not empty -> ONE event with data ""   (the standard's own
+//!                              example: "data\n\ndata\ndata\n\ndata:" fires "" and then "\n")
+//!   `data: a\ndata: \n\n`   -> buffer "a\n\n" -> event "a\n"   (a trailing LF survives)
+//!   `data: \ndata: \n\n`    -> buffer "\n\n"  -> event "\n"
+//!   `\n` alone              -> empty buffer   -> nothing is fired
+
+#[derive(Clone, Debug, Default, PartialEq, Eq)]
+pub struct Event {
+    /// the data of the fired event (joined by LF, one trailing LF stripped)
+    pub data: String,
+    /// the event-type buffer at dispatch; "" means the default type `message`
+    pub event: String,
+    /// `id` fields seen while this event was being assembled (value as written)
+    pub ids: Vec<String>,
+    /// `retry` fields seen while this event was being assembled (value as written, valid or not)
+    pub retries: Vec<String>,
+    /// comment lines (without the leading ':') seen while this event was being assembled
+    pub comments: Vec<String>,
+    /// lines with a field name the algorithm ignores: (name, value)
+    pub unknown: Vec<(String, String)>,
+    /// number of `data` lines that made up this event
+    pub data_lines: usize,
+}
+
+impl Event {
+    pub fn has_other_field(&self) -> bool { !self.event.is_empty() || !self.ids.is_empty() || !self.retries.is_empty() }
+    pub fn has_noise(&self) -> bool { !self.comments.is_empty() || !self.unknown.is_empty() }
+}
+
+#[derive(Clone, Debug, Default, PartialEq, Eq)]
+pub struct Parsed {
+    pub events: Vec<Event>,
+    /// blank lines that fired nothing because the data buffer was empty; the fields gathered before
+    /// them (event/id/retry/comments/unknown) are kept here so that nothing goes unseen
+    pub empty_dispatches: Vec<Event>,
+    /// what was pending (not yet dispatched) when the input ended — discarded by a client
+    pub pending_at_eof: Option<Event>,
+    /// the last line was ended by the end of the input, not by a line terminator
+    pub unterminated_last_line: bool,
+    pub lines: usize,
+}
+
+impl Parsed {
+    /// `stream = [bom] *event`, `event = *(comment / field) end-of-line`: every event is closed by a
+    /// blank line and every line by a terminator.
+    pub fn grammatical(&self) -> bool { self.pending_at_eof.is_none() && !self.unterminated_last_line }
+}
+
+/// Split per the standard: CRLF, LF, CR, end of file.  Returns the lines and whether the last one
+/// was ended by the end of the input.  An empty remainder after the last terminator is not a line.
+pub fn split_lines(text: &str) -> (Vec<&str>, bool) {
+    let b = text.as_bytes();
+    let mut lines = Vec::new();
+    let (mut start, mut i) = (0, 0);
+    while i < b.len() {
+        match b[i] {
+            b'\n' => { lines.push(&text[start..i]); i += 1; start = i }
+            b'\r' => {
+                lines.push(&text[start..i]);
+                i += if b.get(i + 1) == Some(&b'\n') { 2 } else { 1 };
+                start = i
+            }
+            _ => i += 1,
+        }
+    }
+    if start < b.len() { lines.push(&text[start..]); (lines, true) } else { (lines, false) }
+}
+
+/// Parse a complete event stream (already de-chunked).  `Err` only for bytes that are not UTF-8.
+pub fn parse(bytes: &[u8]) -> Result<Parsed, String> {
+    let text = std::str::from_utf8(bytes).map_err(|e| format!("event stream is not UTF-8 (valid up to byte {})", e.valid_up_to()))?;
+    Ok(parse_str(text))
+}
+
+pub fn parse_str(text: &str) -> Parsed {
+    let text = text.strip_prefix('\u{FEFF}').unwrap_or(text);
+    let (lines, unterminated_last_line) = split_lines(text);
+    let mut out = Parsed { unterminated_last_line, lines: lines.len(), ..Default::default() };
+    let mut cur = Event::default();
+    let mut data = String::new();
+    let mut touched = false;
+    for line in lines {
+        if line.is_empty() {
+            // dispatch
+            if data.is_empty() {
+                if touched { out.empty_dispatches.push(std::mem::take(&mut cur)); }
+                cur = Event::default();
+            } else {
+                if data.ends_with('\n') { data.pop(); }
+                cur.data = std::mem::take(&mut data);
+                out.events.push(std::mem::take(&mut cur));
+            }
+            touched = false;
+            continue
+        }
+        touched = true;
+        if let Some(c) = line.strip_prefix(':') { cur.comments.push(c.to_string()); continue }
+        let (name, value) = match line.find(':') {
+            Some(i) => { let v = &line[i + 1..]; (&line[..i], v.strip_prefix(' ').unwrap_or(v)) }
+            None => (line, ""),
+        };
+        match name {
+            "event" => cur.event = value.to_string(),
+            "data" => { data.push_str(value); data.push('\n'); cur.data_lines += 1 }
+            "id" => cur.ids.push(value.to_string()),
+            "retry" => cur.retries.push(value.to_string()),
+            _ => cur.unknown.push((name.to_string(), value.to_string())),
+        }
+    }
+    if touched {
+        cur.data = data;
+        out.pending_at_eof = Some(cur);
+    }
+    out
+}
+
+/// What the format prescribes for line breaks inside a message: CRLF, CR and LF all mean "line break".
+pub fn normalise(message: &str) -> String {
+    message.replace("\r\n", "\n").replace('\r', "\n")
+}
+
+/// Tolerant reader for a *prefix* of a chunked body (used while the response is still being written):
+/// returns the payload of all chunks that are completely present and whether the terminating chunk
+/// was already seen.  Stops silently at the first incomplete or malformed piece.
+pub fn dechunk_prefix(mut input: &[u8]) -> (Vec<u8>, bool) {
+    let mut out = Vec::new();
+    loop {
+        let Some(eol) = input.windows(2).position(|w| w == b"\r\n") else { return (out, false) };
+        let Ok(size_str) = std::str::from_utf8(&input[..eol]) else { return (out, false) };
+        if size_str.is_empty() || !size_str.bytes().all(|b| b.is_ascii_hexdigit()) { return (out, false) }
+        let Ok(size) = usize::from_str_radix(size_str, 16) else { return (out, false) };
+        input = &input[eol + 2..];
+        if size == 0 { return (out, input.starts_with(b"\r\n")) }
+        if input.len() < size + 2 || &input[size..size + 2] != b"\r\n" { return (out, false) }
+        out.extend_from_slice(&input[..size]);
+        input = &input[size + 2..];
+    }
+}
+
+#[cfg(test)]
+mod t {
+    use super::*;
+    fn datas(s: &str) -> Vec<String> { parse_str(s).events.into_iter().map(|e| e.data).collect() }
+
+    #[test] fn standard_examples() {
+        // 9.2.6, the four examples of the standard
+        assert_eq!(datas("data: YHOO\ndata: +2\ndata: 10\n\n"), ["YHOO\n+2\n10"]);
+        let p = parse_str(": test stream\n\ndata: first event\nid: 1\n\ndata:second event\nid\n\ndata:  third event\n\n");
+        assert_eq!(p.events.iter().map(|e| e.data.as_str()).collect::<Vec<_>>(), ["first event", "second event", " third event"]);
+        assert_eq!(p.events[0].ids, ["1"]); assert_eq!(p.events[1].ids, [""]);
+        assert_eq!(p.empty_dispatches[0].comments, [" test stream"]);
+        let p = parse_str("data\n\ndata\ndata\n\ndata:");
+        assert_eq!(p.events.iter().map(|e| e.data.as_str()).collect::<Vec<_>>(), ["", "\n"]);
+        assert!(p.pending_at_eof.is_some() && p.unterminated_last_line && !p.grammatical());
+        assert_eq!(datas("data:test\n\ndata: test\n\n"), ["test", "test"]);
+    }
+    #[test] fn line_ends() {
+        assert_eq!(split_lines("a\rb\r\nc\n\rd"), (vec!["a", "b", "c", "", "d"], true));
+        assert_eq!(split_lines("a\r\n\r\n"), (vec!["a", ""], false));
+        assert_eq!(datas("data: a\rdata: b\r\ndata: c\n\n"), ["a\nb\nc"]);
+        assert_eq!(datas("data: a\r\r"), ["a"]);
+    }
+    #[test] fn injected() {
+        let p = parse_str("data: x\revent: y\n\n");
+        assert_eq!((p.events[0].data.as_str(), p.events[0].event.as_str()), ("x", "y"));
+        let p = parse_str("data: a\rb\n\n");
+        assert_eq!(p.events[0].data, "a"); assert_eq!(p.events[0].unknown, [("b".to_string(), String::new())]);
+        let p = parse_str("\u{FEFF}data: :c\n\n");
+        assert_eq!(p.events[0].data, ":c"); assert!(p.events[0].comments.is_empty());
+        let p = parse_str("event: e\n\ndata: d\n\n");       // type buffer is reset by the empty dispatch
+        assert_eq!(p.events[0].event, ""); assert_eq!(p.empty_dispatches[0].event, "e");
+    }
+    #[test] fn empties_and_trailing() {
+        assert_eq!(datas("data: \n\n"), [""]);
+        assert_eq!(datas("data: a\ndata: \n\n"), ["a\n"]);
+        assert_eq!(datas("data: \ndata: \n\n"), ["\n"]);
+        assert_eq!(datas("\n\n"), Vec::<String>::new());
+        assert_eq!(normalise("a\r\nb\rc\nd\r"), "a\nb\nc\nd\n");
+    }
+    #[test] fn chunk_prefix() {
+        assert_eq!(dechunk_prefix(b"2\r\nhi\r\n3\r\nab"), (b"hi".to_vec(), false));
+        assert_eq!(dechunk_prefix(b"2\r\nhi\r\n0\r\n\r\n"), (b"hi".to_vec(), true));
+        assert_eq!(dechunk_prefix(b""), (vec![], false));
+    }
+}
